@@ -22,12 +22,12 @@ def _has_null(d):
 
 
 def _loads(c):
-    return not _mismatch(c["abs"]["def"], c["abs"]["loc"]) and not _has_null(c["abs"]["def"])
+    return not _mismatch(c["abs"]["def"], c["abs"]["loc"]) and not _mismatch(c["abs"]["def"], c["abs"].get("loc2", {})) and not _has_null(c["abs"]["def"])
 
 
 def _key(c, r):
-    return "def=%s;loc=%s;%s" % (json.dumps(c["abs"]["def"], sort_keys=True), json.dumps(c["abs"]["loc"], sort_keys=True),
-                                sorted(r["tags"])[0])
+    return "def=%s;loc=%s%s;%s" % (json.dumps(c["abs"]["def"], sort_keys=True), json.dumps(c["abs"]["loc"], sort_keys=True),
+                                  (";loc2=" + json.dumps(c["abs"]["loc2"], sort_keys=True)) if "loc2" in c["abs"] else "", sorted(r["tags"])[0])
 
 
 def leaf_paths(tree, prefix=()):
